@@ -217,6 +217,19 @@ func genC10(t *rapid.T) C10Case {
 	g := G{t}
 	k := g.Int(2, 12)
 	var c C10Case
+	if g.Chance(1, 4) {
+		// one request whose biases rebuild the method parameters (listener paths: removal, addition, merge), decided
+		// by up to eight goroutines at once, next to one or two other requests
+		o := GenOpts{MaxBiases: 3, MinBiases: 1, ValueMode: -1, MaxAlts: 5, BiasLikeIds: true,
+			Biases: []string{"criteriaOmission", "criteriaConcealment", "criteriaMixing"}}
+		c.Reqs = append(c.Reqs, string(mustJSON(genRequest(t, o).Req)))
+		c.Copies = append(c.Copies, g.Int(4, 8))
+		for i, n := 0, g.Int(0, 2); i < n; i++ {
+			c.Reqs = append(c.Reqs, string(mustJSON(genRequest(t, GenOpts{MaxBiases: 3, ValueMode: -1, MaxAlts: 5, AllowProb: true}).Req)))
+			c.Copies = append(c.Copies, g.Int(1, 2))
+		}
+		return c
+	}
 	for i := 0; i < k; i++ {
 		if i > 0 && g.Chance(1, 4) { // identical requests running simultaneously
 			c.Reqs = append(c.Reqs, c.Reqs[g.Int(0, i-1)])
